@@ -97,6 +97,7 @@ type Obligation struct {
 	SiteKey   string   `json:"-"`
 	ReplayConfirmed bool `json:"replay_confirmed,omitempty"`
 	ClauseRef *Clause `json:"-"`
+	shortTimeout int
 	fv        *FnV
 }
 
@@ -148,7 +149,27 @@ type FnV struct {
 	wgEvents []wgEv
 	goSites []*ssa.Go
 	pending map[string]*pendingOb
+	panicking string
 	pendingOrder []string
+}
+
+// innermostLoop: the smallest loop containing the current block.
+func (fv *FnV) innermostLoop() *loopInfo {
+	var best *loopInfo
+	for _, li := range fv.loops {
+		if li.body[fv.curBlock] && (best == nil || len(li.body) < len(best.body)) {
+			best = li
+		}
+	}
+	return best
+}
+
+// panickingTerm: ghost flag "this (deferred) function runs while a panic is in flight".
+func (fv *FnV) panickingTerm() string {
+	if fv.panicking == "" {
+		fv.panicking = fv.c.Fresh("panicking", sBool)
+	}
+	return fv.panicking
 }
 
 // pendingOb: an obligation checked at several program points (every return), emitted once as a conjunction.
@@ -531,7 +552,7 @@ func (fv *FnV) findLoops() {
 		ms := newModSet()
 		for b := range li.body {
 			for _, ins := range b.Instrs {
-				fv.g.instrMods(fv.fn, ins, ms)
+				fv.g.instrModsX(fv.fn, ins, ms, true)
 				// stores to locals of this activation also change inside the loop
 				if s, ok := ins.(*ssa.Store); ok {
 					fv.localStoreComps(s, ms.comps)
@@ -543,7 +564,7 @@ func (fv *FnV) findLoops() {
 				ms.comps[m] = true
 			}
 		}
-		li.mods = ms
+		li.mods = ms.flat()
 	}
 }
 
@@ -988,13 +1009,25 @@ func (fv *FnV) safetyProps() []string {
 	return nil
 }
 
+func (fv *FnV) safetyPropsAt(label string) []string {
+	ps := append([]string{}, fv.safetyProps()...)
+	if fv.k != nil {
+		for site, props := range fv.k.SafetyAt {
+			if strings.Contains(label, site) {
+				ps = append(ps, props...)
+			}
+		}
+	}
+	return ps
+}
+
 // safety obligation at a site that can panic
 func (fv *FnV) safety(st *State, what string, cond string, pos token.Pos) {
 	if cond == "true" {
 		return
 	}
 	label := what + ":" + fv.siteText(pos, strings.SplitN(what, "-", 2)[0])
-	o := fv.emit(st, "S", label, fv.safetyProps(), cond, "no panic: "+what, pos)
+	o := fv.emit(st, "S", label, fv.safetyPropsAt(label), cond, "no panic: "+what, pos)
 	o.Contained = fv.hasRecover
 	// past this point the condition holds (otherwise control left through a panic)
 	fv.assume(st, cond)
